@@ -115,6 +115,166 @@ func fixOrder(rel string) func() string {
 	}
 }
 
+// hashCheckFlag: does getByHash compare the SHA-256 of the bytes it got (from the cache and from the storage) with the
+// hash it looked up, before returning or caching them? Recognised form (the fix proposed for the C14 finding):
+//
+//	if err := checkIssuanceChainHash(hash, chain); err != nil { return nil, err }
+//
+// as an earlier statement of the block of every `return chain, …` and of the `go` statement that fills the cache, with
+// a helper whose body is the comparison `!bytes.Equal(issuanceChainHash(chain), hash)` -> error. No such statement at
+// all: flag false (the tree as found). Some returns covered and others not: the unit fails.
+func hashCheckFlag(rel string) func() string {
+	return func() string {
+		fd := mustFunc(rel, "indirectIssuanceChainService.getByHash")
+		isCheck := func(st ast.Stmt) bool {
+			is, ok := st.(*ast.IfStmt)
+			if !ok || is.Init == nil || is.Else != nil {
+				return false
+			}
+			return src(is.Init) == "err := checkIssuanceChainHash(hash, chain)" && src(is.Cond) == "err != nil" &&
+				len(is.Body.List) == 1 && src(is.Body.List[0]) == "return nil, err"
+		}
+		covered, uncovered, checks := 0, 0, 0
+		var walk func(list []ast.Stmt)
+		walk = func(list []ast.Stmt) {
+			seen := false
+			for _, st := range list {
+				if isCheck(st) {
+					seen = true
+					checks++
+					continue
+				}
+				switch x := st.(type) {
+				case *ast.ReturnStmt:
+					if len(x.Results) > 0 && src(x.Results[0]) == "chain" {
+						if seen {
+							covered++
+						} else {
+							uncovered++
+						}
+					}
+				case *ast.GoStmt:
+					if seen {
+						covered++
+					} else {
+						uncovered++
+					}
+				case *ast.IfStmt:
+					// a nested block inherits nothing: the check must be in the same block as the return
+					walk(x.Body.List)
+					if e, ok := x.Else.(*ast.BlockStmt); ok {
+						walk(e.List)
+					}
+				case *ast.BlockStmt:
+					walk(x.List)
+				}
+			}
+		}
+		walk(fd.Body.List)
+		flag := false
+		switch {
+		case checks == 0:
+		case uncovered == 0 && covered > 0:
+			h := findFunc(parseFile(rp(rel)), "checkIssuanceChainHash")
+			if h == nil {
+				panic(bail{rel + ": checkIssuanceChainHash not found"})
+			}
+			body := src(h.Body)
+			if !strings.Contains(body, "if !bytes.Equal(issuanceChainHash(chain), hash) { return fmt.Errorf(") || !strings.HasSuffix(body, "return nil }") {
+				panic(bail{rel + ": checkIssuanceChainHash is not the recognised comparison: " + body})
+			}
+			ih := findFunc(parseFile(rp(rel)), "issuanceChainHash")
+			if ih == nil || !strings.Contains(src(ih.Body), "sha256.Sum256(chain)") {
+				panic(bail{rel + ": issuanceChainHash is no longer sha256.Sum256(chain)"})
+			}
+			flag = true
+		default:
+			panic(bail{fmt.Sprintf("%s: getByHash checks the hash on %d of its %d ways of handing out / caching a chain", rel, covered, covered+uncovered)})
+		}
+		return fmt.Sprintf("/-- generated from %s func getByHash: every `return chain, …` and the detached cache fill come after\n`if err := checkIssuanceChainHash(hash, chain); err != nil { return nil, err }` (helper: `!bytes.Equal(issuanceChainHash(chain), hash)` ⇒ error) -/\ndef getByHashVerifiesHash : Bool := %v\n", rel, flag)
+	}
+}
+
+// buildCheckFlag: does the external-storage BuildLogLeaf refuse a chain whose extra data cannot be TLS-encoded, before it
+// stores anything? Recognised form (the fix proposed for the C14 "poisoned range" finding), as a top-level statement before
+// the one that calls s.add:  if _, err := util.ExtraDataForChain(raw[0], raw[1:], isPrecert); err != nil { return nil, … }
+func buildCheckFlag(rel string) func() string {
+	return func() string {
+		fd := mustFunc(rel, "indirectIssuanceChainService.BuildLogLeaf")
+		checkAt, addAt := -1, -1
+		for i, st := range fd.Body.List {
+			if is, ok := st.(*ast.IfStmt); ok && is.Init != nil && src(is.Init) == "_, err := util.ExtraDataForChain(raw[0], raw[1:], isPrecert)" {
+				if src(is.Cond) != "err != nil" || is.Else != nil || len(is.Body.List) != 1 || !strings.HasPrefix(src(is.Body.List[0]), "return nil, ") || src(is.Body.List[0]) == "return nil, nil" {
+					failf(is, "unrecognised encoding check")
+				}
+				if checkAt < 0 {
+					checkAt = i
+				}
+			}
+			if addAt < 0 && strings.Contains(src(st), "s.add(ctx, ") {
+				addAt = i
+			}
+		}
+		if addAt < 0 {
+			panic(bail{rel + ": indirect BuildLogLeaf no longer calls s.add"})
+		}
+		if checkAt > addAt {
+			panic(bail{rel + ": the encoding check comes after the chain has been stored"})
+		}
+		return fmt.Sprintf("/-- generated from %s func indirectIssuanceChainService.BuildLogLeaf: before `s.add`, the chain is refused unless\n`util.ExtraDataForChain(raw[0], raw[1:], isPrecert)` (the in-backend extra data) can be encoded -/\ndef indirectBuildChecksEncoding : Bool := %v\n", rel, checkAt >= 0)
+	}
+}
+
+// fixErrorFacts: how the two readers treat a FixLogLeaf failure. rpcGetLeavesByRange: a `for _, leaf := range rsp.Leaves`
+// whose body is exactly `if err := …FixLogLeaf(ctx, leaf); err != nil { return nil, <status>, … }` followed by
+// `return rsp, http.StatusOK, nil`; rpcGetEntryAndProof: the same `if` on rsp.Leaf.
+func fixErrorFacts(rel string) func() string {
+	return func() string {
+		status := func(fn string) (string, *ast.IfStmt) {
+			fd := mustFunc(rel, fn)
+			ss := findStmts(fd, func(s ast.Stmt) bool {
+				is, ok := s.(*ast.IfStmt)
+				return ok && is.Init != nil && strings.Contains(src(is.Init), ".FixLogLeaf(ctx, ")
+			})
+			if len(ss) != 1 {
+				panic(bail{fmt.Sprintf("%s: expected one FixLogLeaf call in %s, found %d", rel, fn, len(ss))})
+			}
+			is := ss[0].(*ast.IfStmt)
+			if src(is.Cond) != "err != nil" || len(is.Body.List) != 1 || is.Else != nil {
+				failf(is, "FixLogLeaf failure is not answered by a single return")
+			}
+			r, ok := is.Body.List[0].(*ast.ReturnStmt)
+			if !ok || len(r.Results) != 3 || src(r.Results[0]) != "nil" {
+				failf(is, "FixLogLeaf failure is not answered by `return nil, <status>, err`")
+			}
+			v, ok := httpStatus[src(r.Results[1])]
+			if !ok {
+				failf(r, "unknown status %s", src(r.Results[1]))
+			}
+			return strconv.Itoa(v), is
+		}
+		rs, rif := status("rpcGetLeavesByRange")
+		es, _ := status("rpcGetEntryAndProof")
+		// the range loop
+		fd := mustFunc(rel, "rpcGetLeavesByRange")
+		every := false
+		for i, st := range fd.Body.List {
+			fs, ok := st.(*ast.RangeStmt)
+			if !ok {
+				continue
+			}
+			if src(fs.X) == "rsp.Leaves" && len(fs.Body.List) == 1 && fs.Body.List[0] == ast.Stmt(rif) && i+1 < len(fd.Body.List) &&
+				src(fd.Body.List[i+1]) == "return rsp, http.StatusOK, nil" && i+2 == len(fd.Body.List) {
+				every = true
+			}
+		}
+		if !every {
+			panic(bail{rel + ": rpcGetLeavesByRange is not `for … range rsp.Leaves { if err := FixLogLeaf…; err != nil { return nil, status, … } }; return rsp, http.StatusOK, nil`"})
+		}
+		return fmt.Sprintf("/-- generated from %s func rpcGetLeavesByRange: status returned when FixLogLeaf fails on any leaf of the reply\n(the loop visits every leaf of `rsp.Leaves`, its body is only this check, and the reply is returned whole afterwards) -/\ndef rangeFixErrorStatus : Nat := %s\n/-- generated from %s func rpcGetEntryAndProof: status returned when FixLogLeaf fails -/\ndef entryFixErrorStatus : Nat := %s\n", rel, rs, rel, es)
+	}
+}
+
 func init() {
 	t := "types.go"
 	register(genFile{name: "ChainStore", imports: nil, units: []unit{
@@ -124,5 +284,8 @@ func init() {
 		{"PrecertChainEntry", layoutUnit(t, "PrecertChainEntry", "layoutPrecertChainEntry")},
 		{"CertificateChain", layoutUnit(t, "CertificateChain", "layoutCertificateChain")},
 		{"fixOrder", fixOrder("trillian/ctfe/services.go")},
+		{"getByHashVerifiesHash", hashCheckFlag("trillian/ctfe/services.go")},
+		{"fixErrorFacts", fixErrorFacts("trillian/ctfe/handlers.go")},
+		{"indirectBuildChecksEncoding", buildCheckFlag("trillian/ctfe/services.go")},
 	}})
 }
